@@ -223,8 +223,8 @@ def _c12_pair(r):
     elif k < 0.8:
         rad = r.choice([3.0, 5.0])
         old = {"type": "CircularRegion", "cx": cx, "cy": cy, "r": rad}
-        new = {"type": "CircularRegion", "cx": cx + r.choice([0.0, 1.0, 3.0]), "cy": cy,
-               "r": rad + r.choice([0.0, 1.0, 2.9, 3.0, -1.0])}
+        new = {"type": "CircularRegion", "cx": cx + r.choice([0.0, 1.0, 3.0, 2.0]), "cy": cy + r.choice([0.0, 0.0, 2.0, 3.0]),
+               "r": rad + r.choice([0.0, 1.0, 2.3, 2.9, 3.0, 4.0, -1.0])}
         if r.random() < 0.2:
             new[r.choice(["cx", "cy", "r"])] = float("nan")
     else:
@@ -336,6 +336,20 @@ def search_c16(pid, r, n, stats):
                     "events": [list(e) for e in evs2],
                     "violations": ["step 2: arc %r passes 2 units deep through region %r but was forwarded"
                                    % (arc_cmd, cfg2["regions"][0])]}
+        # the same arc line twice: the second starts where the first ended (a full circle about a
+        # different centre); the points tested must belong to the arc actually commanded
+        if r.random() < 0.2:
+            x0, y0, rr2 = r.choice([40.0, 20.0]), r.choice([50.0, 30.0]), r.choice([5.0, 4.0])
+            line = "G2 X%r Y%r I%r J0" % (x0 + 2 * rr2, y0, rr2)
+            cfg3 = {"regions": [("R", "m", x0 + 4 * rr2 - 2.5, y0 - 2.0, x0 + 4 * rr2 + 2.5, y0 + 2.0)]}
+            evs3 = [("g", "G28"), ("g", "G1 X%r Y%r Z1" % (x0, y0)), ("g", line), ("g", line)]
+            res3, _h3 = oracle.run_events(cfg3, evs3)
+            stats["evaluations"] += 1
+            if line not in oracle.forwarded(evs3[2], res3[2]) or line in oracle.forwarded(evs3[3], res3[3]):
+                return {"kind": "filter", "property": pid, "cfg": dict(cfg3, g90e=False, enter=None, exit=None, ext={}),
+                        "events": [list(e) for e in evs3],
+                        "violations": ["the first %r stays clear of region %r and must be forwarded, the second is a full "
+                                       "circle through it and must not: results %r" % (line, cfg3["regions"][0], res3[2:])]}
         # radius form, axis-aligned chords only (oblique chords: known finding K-D10)
         d = r.choice([1.0, 4.0, 10.0, 0.5])
         end = (start[0] + d, start[1]) if r.random() < 0.5 else (start[0], start[1] - d)
@@ -407,11 +421,18 @@ def search_c19(pid, r, n, stats):
             ws += ["%s%s" % (r.choice("XYZEFxyzef"), r.choice(["35", "7", "0", "0.8", "-1", ""]))
                    for _k in range(r.randint(1, 3))]
             params = " ".join(ws)
+        if r.random() < 0.12:
+            params = r.choice(["X0", "X0 Y0", "X.0Y0.", "x0.0 y-0", "X5 X0", "Y 0 E3", "Y0", "X-0 Y+0"])
         stats["evaluations"] += 1
         stats["nontrivial"].add(zlib.crc32(params.encode()))
         v = oracle_text.c19_reader(params)
         if v:
             return {"kind": "reader", "property": pid, "params": params, "violations": v}
+        if r.random() < 0.15:
+            flags = " ".join(r.choice(["X", "Y", "Z", "X0", "W", "O", "R", "S1", "w", "Y Z", ""]) for _k in range(r.randint(0, 3)))
+            v = oracle_text.c19_g28(flags)
+            if v:
+                return {"kind": "g28flags", "property": pid, "params": flags, "violations": v}
     return None
 
 
